@@ -2,6 +2,7 @@ package main
 
 import (
 	"fmt"
+	"go/types"
 	"math/bits"
 
 	"golang.org/x/tools/go/ssa"
@@ -34,6 +35,7 @@ func init() {
 		"verifYield":       stubYield,
 		"verifMaxAlloc":    vMaxAlloc,
 		"verifParam":       vParam,
+		"verifDeepEqual":   vDeepEqual,
 		"verifPreemptBound": func(it *Interp, fr *frame, fn *ssa.Function, a []Value, site ssa.Instruction) Value {
 			it.sched.preemptBound = int(a[0].(*Term).k)
 			return nil
@@ -298,4 +300,101 @@ func vParam(it *Interp, fr *frame, fn *ssa.Function, args []Value, site ssa.Inst
 		it.unsupported("verifParam(%s): no value supplied", name)
 	}
 	return it.tt.Const(64, uint64(int64(v)))
+}
+
+// verifDeepEqual(a, b interface{}) bool: structural equality over exported
+// fields, following pointers and interfaces, slices by content (nil == empty),
+// funcs/maps/chans ignored. Returns a term; never branches.
+func vDeepEqual(it *Interp, fr *frame, fn *ssa.Function, args []Value, site ssa.Instruction) Value {
+	a, b := args[0].(*IfaceV), args[1].(*IfaceV)
+	if a.t == nil || b.t == nil {
+		return it.tt.Bool(a.t == nil && b.t == nil)
+	}
+	if !types.Identical(a.t, b.t) {
+		return it.tt.fls
+	}
+	return it.deepEq(fr, a.v, b.v, a.t, 0)
+}
+
+func (it *Interp) deepEq(fr *frame, a, b Value, t types.Type, depth int) *Term {
+	tt := it.tt
+	if depth > 8 {
+		return tt.tru
+	}
+	switch u := t.Underlying().(type) {
+	case *types.Basic:
+		if _, ok := a.(*OpaqueV); ok {
+			return tt.tru
+		}
+		if sa, ok := a.(*StrV); ok {
+			sb := b.(*StrV)
+			if sa.opaque || sb.opaque {
+				return tt.tru
+			}
+		}
+		return it.eqValues(a, b)
+	case *types.Pointer:
+		pa, pb := a.(*PtrV), b.(*PtrV)
+		if pa.isNil() || pb.isNil() {
+			return tt.Bool(pa.isNil() && pb.isNil())
+		}
+		return it.deepEq(fr, it.load(fr, pa), it.load(fr, pb), u.Elem(), depth+1)
+	case *types.Slice:
+		sa, sb := a.(*SliceV), b.(*SliceV)
+		la, lb := it.sliceLen(sa), it.sliceLen(sb)
+		r := tt.Eq(la, lb)
+		if sa.base == nil || sb.base == nil {
+			return r
+		}
+		na := it.lenBound(la, it.arrayOf(sa.base).n)
+		nb := it.lenBound(lb, it.arrayOf(sb.base).n)
+		if nb < na {
+			na = nb
+		}
+		ea := it.readElems(fr, sa, tt.Const(64, 0), na)
+		eb := it.readElems(fr, sb, tt.Const(64, 0), na)
+		n := len(ea)
+		if len(eb) < n {
+			n = len(eb)
+		}
+		for k := 0; k < n; k++ {
+			in := tt.Ult(tt.Const(64, uint64(k)), la)
+			if in.IsFalse() {
+				break
+			}
+			r = tt.BAnd(r, tt.BOr(tt.BNot(in), it.deepEq(fr, ea[k], eb[k], u.Elem(), depth+1)))
+		}
+		return r
+	case *types.Array:
+		aa, ab := a.(*ArrayV), b.(*ArrayV)
+		r := tt.tru
+		for i := 0; i < aa.n; i++ {
+			r = tt.BAnd(r, it.deepEq(fr, aa.get(i), ab.get(i), u.Elem(), depth+1))
+		}
+		return r
+	case *types.Struct:
+		sa, sb := a.(*StructV), b.(*StructV)
+		r := tt.tru
+		for i := 0; i < u.NumFields(); i++ {
+			f := u.Field(i)
+			if !f.Exported() && !f.Embedded() {
+				continue
+			}
+			if nt, ok := f.Type().(*types.Named); ok && nt.Obj().Name() == "BaseLayer" {
+				continue // raw contents/payload windows are compared separately
+			}
+			r = tt.BAnd(r, it.deepEq(fr, sa.f[i], sb.f[i], f.Type(), depth+1))
+		}
+		return r
+	case *types.Interface:
+		ia, ib := a.(*IfaceV), b.(*IfaceV)
+		if ia.t == nil || ib.t == nil {
+			return tt.Bool(ia.t == nil && ib.t == nil)
+		}
+		if !types.Identical(ia.t, ib.t) {
+			return tt.fls
+		}
+		return it.deepEq(fr, ia.v, ib.v, ia.t, depth+1)
+	}
+	return tt.tru
 }
